@@ -3,14 +3,18 @@ from lib.engine import Check, Stream
 CHECK = Check(
     "C07",
     streams=[Stream("buffer", drv="c07", sub="c07",
-                    nontrivial=lambda tags, inp: "client" in tags or "reset" in tags,
+                    nontrivial=lambda tags, inp: "client" in tags or "reset" in tags or "reuse" in tags,
                     descr="histories over one ByteBuffer")],
-    rule=("histories over one buffer: exhaustive over a 13-operation alphabet (Bufferize, BufferizeString, "
-          "Acquire/append/Release, AssignBuf to bytes and to string, generated TestObject CopyTo, Reset, client overwrite / "
-          "append (fitting and growing) / unbuffered Assign on handed-out slices) to length 3 (quick) or 4 (thorough) x initial "
-          "capacity {0, tight, roomy}, plus seeded random histories up to length 40; after every step every live handed-out "
+    rule=("histories over one buffer: exhaustive over an 18-operation alphabet (Bufferize, BufferizeString, "
+          "Acquire/append/Release, AssignBuf to bytes and to string, generated TestObject CopyTo into a fresh destination and "
+          "into the destination of the previous CopyTo (its fields still holding the earlier values, which stay with their "
+          "holders by value), Reset, client overwrite / append (fitting and growing) / unbuffered Assign on handed-out slices, "
+          "a handed-out value fed back) to length 3 (quick) or 4 (thorough) x initial capacity {0, tight, roomy}, plus seeded "
+          "random histories up to length 40 (there also: CopyTo of TestHistory and TestObject1 - []byte, *[]byte, nested "
+          "struct fields -, fresh and non-fresh destinations with values shorter / equal / longer than what the field holds, "
+          "buffered Assign into the field that holds an earlier value); after every step every live handed-out "
           "value is re-read and all address ranges (capacity included) are tested for overlap. Non-trivial = contains a client "
-          "mutation or a Reset; distinct = distinct input string."),
+          "mutation, a Reset or a destination used again; distinct = distinct input string."),
     assumptions=["append growth is an oracle: theorems quantify over every growth policy; the model run uses extra=0 and only "
                  "growth-independent observables are compared (buffer length, contents, overlap)",
                  "amd64; strings handed out are immutable"],
@@ -21,7 +25,8 @@ MANIFEST = {
     "text": ("Rocq theorems C07_content_stable / C07_no_overlap / C07_inv_reachable: for every history over one buffer, every initial "
              "capacity and every append growth policy, each value handed out since the last Reset reads what its holder is entitled to "
              "and no two live handed-out values overlap, capacity included (induction over the operation list on an explicit byte-array "
-             "heap). C07_refuted_loose shows the pre-fix slicing violates it. The model is tied to /repo by running the extracted model "
+             "heap; the operations include CopyTo / buffered Assign into a destination that is not fresh, "
+             "C07_used_destination_as_fresh). C07_refuted_loose shows the pre-fix slicing violates it. The model is tied to /repo by running the extracted model "
              "and the real ByteBuffer / AssignBuf / generated CopyTo on the same histories."),
     "note": ("Trusted: Coq kernel, extraction (ExtrOcamlBasic+ExtrOcamlString), Go harness. Modelled not verified: buffer.go, bufferize.go, "
              "the buffered branches of assign_builtin.go, the cpy statement pattern; Go's append growth is an oracle. No axioms."),
